@@ -509,8 +509,24 @@ class BuiltinMixin:
         return SV(BOOL, f(recv.z))
 
     def sm_lower(self, recv, args, kwargs, st, node):
-        f = z3.Function("Lower", sym.IntSeq, sym.IntSeq)
+        f = z3.Function("spec.Lower", sym.IntSeq, sym.IntSeq)  # same symbol as an abstract @spec Lower
         return SV(STR, f(recv.z))
+
+    def sm_casefold(self, recv, args, kwargs, st, node):
+        f = z3.Function("spec.Casefold", sym.IntSeq, sym.IntSeq)
+        return SV(STR, f(recv.z))
+
+    def sm_upper(self, recv, args, kwargs, st, node):
+        f = z3.Function("spec.Upper", sym.IntSeq, sym.IntSeq)
+        return SV(STR, f(recv.z))
+
+    def sm_replace(self, recv, args, kwargs, st, node):
+        """s.replace(old, new) for constant old/new: uninterpreted per (old, new) pair."""
+        if len(args) != 2 or args[0].const is None or args[1].const is None:
+            raise EngineError("str.replace with non-constant arguments")
+        key = "spec.Replace_" + "_".join(str(ord(c)) for c in args[0].const.v) + "__" + "_".join(str(ord(c)) for c in args[1].const.v)
+        f = z3.Function(key, sym.IntSeq, sym.IntSeq)
+        return SV(recv.t, f(recv.z))
 
     def sm_split(self, recv, args, kwargs, st, node):
         sep = args[0] if args else mk_const(None)
